@@ -120,12 +120,12 @@ class C17(object):
             return {'kind': 'reparse', 'A': G.render(a), 'B': G.render(b),
                     'B_names': sorted(set(G.all_value_names(b) + [d['name'] for d in b['decos']] + ['k', 't'])),
                     'reduction': rng.random() < 0.5, 'solve_A': rng.random() < 0.8}
-        if rng.random() < 0.5:
+        if idx % 8 not in (1, 5) and rng.random() < 0.5:
             target = {'type': 'book', 'name': rng.choice(BOOKS), 'maxtime': rng.randint(2, 8)}
         else:
             spec = G.gen_affine(rng, rho=rng.choice([0.3, 0.6]), tol=1e-9, maxtime=rng.randint(1, 8))
             target = {'type': 'block', 'text': G.render(spec), 'reduction': rng.random() < 0.5,
-                      'steady': rng.random() < 0.35}
+                      'steady': (idx % 8 == 1) or rng.random() < 0.3}
             if rng.random() < 0.5:
                 # a block that uses user-defined functions (registered with AddFunction)
                 x = spec['simul'][0]['name']
